@@ -399,6 +399,17 @@ func ruleRetryBook(c *Ctx, r *Reporter) {
 		}
 		r.check(fix && push, "reconciler.(retries).Add|"+q+" re-positioned or pushed", c.posStr(add.Pos()), "an existing item is Fix()ed and a new one pushed in "+q, "Add does not keep "+q+" ordered when an item is re-added with new keys: the retry low watermark / wake-up order is wrong")
 	}
+	// backoff starts over after a change or a success: the callers of Clear
+	for _, spec := range [][2]string{{"single", "a new version of the object"}, {"batch", "a new version of the object (batch mode)"}} {
+		fn := c.fnByName("reconciler.(incremental)." + spec[0])
+		n := 0
+		if fn != nil {
+			for _, f := range withAnon(fn) {
+				n += len(callsIn(c, f, "reconciler.(retries).Clear"))
+			}
+		}
+		r.checkP([]string{"C16"}, n > 0, "reconciler.(incremental)."+spec[0]+"|retry state cleared on change", "-", "retries.Clear is called for "+spec[1], "the retry state is not cleared when "+spec[1]+" arrives: the backoff continues from the old failures instead of starting over")
+	}
 	if cl := c.fnByName("reconciler.(retries).Clear"); cl != nil {
 		del := false
 		for _, call := range c.callsNamed(cl, "builtin.delete") {
